@@ -1,7 +1,7 @@
 use crate::writers::file_log_writer::InfixFilter;
 use crate::{DeferredNow, FlexiLoggerError};
 use std::{
-    ffi::{OsStr, OsString},
+    ffi::OsStr,
     ops::Add,
     path::{Path, PathBuf},
 };
@@ -296,18 +296,7 @@ impl FileSpec {
         let restart_siblings = uncompressed_files
             .into_iter()
             .chain(compressed_files)
-            .filter(|pb| {
-                // ignore .gz suffix
-                let mut pb2 = PathBuf::from(pb);
-                if pb2.extension() == Some(OsString::from("gz").as_ref()) {
-                    pb2.set_extension("");
-                }
-                // suffix must match the given suffix, if one is given
-                match self.o_suffix {
-                    Some(ref sfx) => pb2.extension() == Some(OsString::from(sfx).as_ref()),
-                    None => true,
-                }
-            })
+            // (the listing has checked the suffix already, and correctly also for a suffix with dots)
             .filter(|pb| {
                 pb.file_name()
                     .unwrap()
